@@ -1,6 +1,7 @@
 """C05 -- automatic discovery never reports a signature the function cannot honour."""
 from ..rules_visitor import (rule_binders, rule_parameter_fields, rule_scopes, rule_evaluation_order,
                              rule_invalidation_tables, rule_star_extraction, rule_resolution_order)
+from ..rules_discovery import rule_translation
 
 EXPLANATION = (
     "Static analysis of a static analyser: CallListerVisitor is sound only if it accounts for every way Python can change "
@@ -26,3 +27,5 @@ def run(check):
     check.run_rule('C05.R5', lambda c: rule_invalidation_tables(c, 'C05.R5'))
     check.run_rule('C05.R6', lambda c: rule_star_extraction(c, 'C05.R6'))
     check.run_rule('C05.R7', lambda c: rule_resolution_order(c, 'C05.R7'))
+    # a forwarding call that cannot be translated must abort discovery (plain signature), never be skipped
+    check.run_rule('C05.R8', lambda c: rule_translation(c, {'translate': None, 'fallback': 'C05.R8'}))
